@@ -252,13 +252,26 @@ def c08(tier, seed):
 
 
 
+def amqp_stages(tier):
+    """spec/AmqpRpc.tla: JSON-RPC over a message broker (aio_pika client backend + server integration; the broker is the environment)"""
+    quick = tier == 'quick'
+    st = Stage('amqp', mc=('AmqpRpcMC', 'AmqpRpc_quick.cfg' if quick else 'AmqpRpc_thorough.cfg'),
+               emit=('AmqpRpcMC', 'AmqpRpc_quick_emit.cfg'),
+               extra_emits=[] if quick else [('AmqpRpcMC', 'AmqpRpc_thorough_emit.cfg', dict(simulate='num=4000', depth=16, seed=None))],
+               driver='amqp', trace=('AmqpRpcTrace', 'AmqpRpcTrace.cfg'),
+               nontrivial=lambda tr: sum(1 for e in tr['ev'] if e['ev'] == 'Deliver') >= 1)
+    return [st, Stage('amqp_liveness', mc=('AmqpRpcMC', 'AmqpRpc_live.cfg'))]
+
+
 def c07(tier, seed):
     t = 'quick' if tier == 'quick' else 'thorough'
     return dict(stages=[Stage('endtoend', mc=('EndToEndMC', 'EndToEnd_%s.cfg' % t), emit=('EndToEndMC', 'EndToEnd_%s_emit.cfg' % t),
                               driver='endtoend', trace=('EndToEndTrace', 'EndToEndTrace.cfg'),
                               deviations={'UuidIds': 'EndToEndTrace_dev_UuidIds.cfg'},
-                              nontrivial=lambda tr: len(tr['ev']) >= 3)],
-                rule='client programs in every notation (call, __call__, proxy attribute, hand-built send, notify, batch add / '
+                              nontrivial=lambda tr: len(tr['ev']) >= 3)] + amqp_stages(tier),
+                rule='(extension: the aio_pika client backend and server integration over an in-memory broker - every delivery order of '
+                     'requests and replies for <= 2 concurrent calls / notifications on one client, shared or exclusive result queues, stray '
+                     'replies, close() while calls wait; AmqpRpc.tla) client programs in every notation (call, __call__, proxy attribute, hand-built send, notify, batch add / '
                      '__call__ / proxy / __getitem__, batch notify mixes) x methods that return / raise a registered typed error / '
                      'an unregistered code / an arbitrary exception x no / positional / named arguments x 4 id generators x strict '
                      'on/off x sync/async client x sync/async dispatcher (full product for single calls, 4 combinations for '
